@@ -14,22 +14,34 @@ MANIFEST = {
     "text": "Lean 4 proof, for every route table and destination, that the model of RouteTable.find_best_route (the loop as written, "
             "including ipaddress' netmask/hostmask parsing and its raise) returns the longest-prefix entry, lowest metric on ties, "
             "earliest entry on full ties, the default route exactly when nothing matches, None exactly when nothing matches and no "
-            "default exists. For the executable forwarding model (hosts, switches, routers, ARP, ICMP, a UDP service exchange; one "
-            "shared mutable frame per flood) and every topology, state and nesting depth: software is handed a unicast frame only on "
-            "a node owning its destination IP (unconditional, by invariant induction over the whole interpreter); ARP-cache "
-            "soundness is preserved by every processing step under a decidable configuration check; every receive and every routing "
-            "hop lowers the TTL by one and drops at TTL < 1, so the accepted receptions + hops of one frame object, over all flood "
-            "branches, are at most its TTL; ARP look-ups re-attempt at most twice; hosts send on-link destinations directly and "
+            "default exists; look-ups are a function of the table as it is now (histories with any look-ups in between give the same "
+            "answers; a new or replaced default route and a new route take effect at the next look-up). For the executable forwarding "
+            "model (hosts, switches, routers, firewalls, ARP, ICMP, a UDP service exchange; one shared mutable frame per flood) and "
+            "every topology, state and nesting depth: software is handed a unicast frame only on a node owning its destination IP "
+            "(unconditional, by invariant induction over the whole interpreter); ARP-cache soundness is preserved by every processing "
+            "step under a decidable configuration check (GoodCfg); every receive and every routing hop lowers the TTL by one and drops "
+            "at TTL < 1. HANDLING ANY PACKET ALWAYS TERMINATES, as a theorem with an a-priori bound: from any state whose "
+            "configuration passes GoodCfg, any sequence of pings / service requests / interface and power toggles / cache clears run "
+            "with any nesting budget >= 1323 (a constant depending only on the initial TTL 64) never runs out of budget and computes "
+            "exactly what it computes with budget 1323 (ranking: frame classes ARP-reply < ARP-request-for-a-next-hop < ARP-request < "
+            "reply < request, 4 levels per TTL unit, look-up flag rank <= 3; 20-field mutual induction), and unconditionally a run "
+            "that finishes is identical under any larger budget (fuel monotonicity). Hosts send on-link destinations directly and "
             "everything else to the gateway's MAC; routers forward to the next hop of the route find_best_route returns, never "
             "forward broadcasts, and drop frames their first verdict denies before anything else (firewalls: the arrival port's list, "
-            "no ARP exemption, then the list chosen by the destination); a ping and a service request/reply between two hosts joined "
-            "by warm paths of any number of switches, routers and firewalls in any order, every verdict permitting, succeed "
-            "(liveness, partial: warm caches). Tie: constants, comparison operators, acceptance tests and "
-            "call order regenerated from the source (Gen/Forward.lean) + rigs R-route and R-net (whole event streams, results and "
-            "final tables of generated topologies diffed against the model, plus the property's own oracle on the implementation).",
-    "note": "C08-specific: whole-network termination is proved per frame (TTL) and per look-up (flags); that the nesting of ARP "
-            "exchanges ends, and that permitted exchanges succeed (liveness), are checked by the rig on the implementation, not "
-            "proved. Metrics are Int in the model (float inf/nan not modelled). Rule lists are abstracted to one verdict per payload "
+            "no ARP exemption, then the list chosen by the destination; a broadcast on the DMZ port is dropped before the look-ups). "
+            "Liveness: a ping and a service request/reply between two hosts joined by WARM paths of any number of switches, routers "
+            "and firewalls in any order, every verdict permitting, succeed; with COLD caches a ping between two hosts on one switched "
+            "LAN (other ports silent, switch table arbitrary) succeeds, the whole ARP cascade included. Tie: constants, comparison "
+            "operators, acceptance tests, call order and what the ranking argument rests on (DMZ broadcast guard, routers resolve "
+            "without ARP, replies start nothing, ARP pairs genuine, find_best_route pure) regenerated from the source "
+            "(Gen/Forward.lean) + rigs R-route and R-net (whole event streams, results and final tables of generated topologies "
+            "diffed against the model, plus the property's own oracle on the implementation).",
+    "note": "C08-specific: the termination theorem needs GoodCfg (unique MACs, next hops are addresses only routers carry); "
+            "whether it is necessary is open (no counterexample known on the repaired code; the rig's misconfigured families "
+            "terminate in model and implementation). Python's own recursion limit is outside the model. Liveness is PARTIAL: "
+            "warm caches for arbitrary paths, cold caches only for one switched LAN with silent other ports; cold caches across "
+            "routers and the service exchange with cold caches are checked by oracle (d) on the implementation, not proved. "
+            "Metrics are Int in the model (float inf/nan not modelled). Rule lists are abstracted to one verdict per payload "
             "class (router: default ACL plus one permit flag; firewall: six lists x three classes); an air space frequency is "
             "modelled for two access points only; link / air space capacity is outside the forwarding model.",
     "technique": "Lean 4 theorems over executable models of route selection and frame forwarding; models tied by regenerated tables and "
@@ -38,7 +50,7 @@ MANIFEST = {
 }
 MODULES = ["PrimaiteModel.Props.C08", "PrimaiteModel.Props.C08Forward", "PrimaiteModel.Lemmas.ForwardInv",
            "PrimaiteModel.Props.C08Addressee", "PrimaiteModel.Props.C08Liveness", "PrimaiteModel.Props.C08FuelMono",
-           "PrimaiteModel.Props.C08Termination", "PrimaiteModel.Props.C08RouteOps"]
+           "PrimaiteModel.Props.C08Termination", "PrimaiteModel.Props.C08RouteOps", "PrimaiteModel.Props.C08Cold"]
 EXE = "drv_c08"
 
 
